@@ -1,10 +1,13 @@
-"""sitecustomize.py — only active when VERIF_COV=1 and COVERAGE_PROCESS_START are set: lets tools/coverage_report.sh
-measure which lines / branches of /repo/src/eascheduler the implementation-side harness subprocesses exercise
-(a measurement of the correspondence's reach, printed into DESIGN.md 11.7; never part of a verdict)."""
+"""sitecustomize.py — active only while the marker file .scratch/cov/ENABLED exists (created and removed by
+tools/coverage_report.sh): lets that script measure which lines / branches of /repo/src/eascheduler the
+implementation-side harness subprocesses exercise.  A measurement of the correspondence's reach (DESIGN.md 11.7);
+never part of a verdict; without the marker this file does nothing."""
 import os
 
-if os.environ.get('VERIF_COV') == '1' and os.environ.get('COVERAGE_PROCESS_START'):
+_HERE = os.path.dirname(os.path.abspath(__file__))
+if os.path.exists(os.path.join(_HERE, '.scratch', 'cov', 'ENABLED')):
     try:
+        os.environ['COVERAGE_PROCESS_START'] = os.path.join(_HERE, '.scratch', 'cov', 'coveragerc')
         import coverage
         coverage.process_startup()
     except Exception:       # noqa: BLE001
